@@ -21,7 +21,7 @@ var c19Names = []string{"TestS", "TestS/sub", "TestS/sub/deep", "TestT", "TestT#
 // whose bytes are compared), that the bytes are exactly the formatted value, and
 // that nothing else in the directory moves.
 func checkC19(c *vkit.Ctx) {
-	c.P.Rule = "case = standalone history: 1-5 tests (names with nested subtests, `#01`, unicode, `%` verbs) each making 1-12 MatchStandaloneSnapshot / MatchStandaloneJSON calls, 1-3 executions per test, values = arbitrary bytes incl. lines ending in \\r, CRLF, NUL, no final newline, empty; three simulated processes: record, update run (random subset changes to shorter/longer values, update enabled), read-only replay; in every 3rd history standalone files (<= 8 KiB) the process already read or wrote are rewritten between two calls, mostly to other bytes of the same length, and the next call reaching the file is judged against the new bytes; oracle per call: outcome vs slot model, file k of the test holds exactly the formatted bytes (kr/pretty for values, canonical pretty JSON which must be json.Valid for JSON), no other path touched; non-trivial = history with >=2 calls in some test or a hostile byte class or a `%` name; distinct by hash of history"
+	c.P.Rule = "case = standalone history: 1-5 tests (names with nested subtests, `#01`, unicode, `%` verbs) each making 1-12 MatchStandaloneSnapshot / MatchStandaloneJSON calls, 1-3 executions per test, values = arbitrary bytes incl. lines ending in \\r, CRLF, NUL, no final newline, empty; three simulated processes: record, update run (random subset changes to shorter/longer values, update enabled), read-only replay; in every 3rd history standalone files (<= 8 KiB) the process already read or wrote are rewritten between two calls, mostly to other bytes of the same length, and the next call reaching the file is judged against the new bytes; plus 300 (thorough 6000) executions in which the value of a standalone call takes 1-2 standalone snapshots itself while it is formatted (GoString): file n holds the value of the n-th call entered; one session in five lives below the start directory and changes the working directory between calls; oracle per call: outcome vs slot model, file k of the test holds exactly the formatted bytes (kr/pretty for values, canonical pretty JSON which must be json.Valid for JSON), no other path touched; non-trivial = history with >=2 calls in some test or a hostile byte class or a `%` name; distinct by hash of history"
 	c.P.Assumptions = []string{"kr/pretty is the formatter of MatchStandaloneSnapshot values (trusted); tidwall/pretty with the default options is the canonical JSON form"}
 	n := c.N(3000, 100000)
 	for i := 0; i < n; i++ {
